@@ -253,7 +253,7 @@ impl fmt::Display for DataValue {
             Self::Datetime(v) => write!(f, "{}", v.to_rfc3339()),
             Self::List(v) => {
                 for (i, item) in v.iter().enumerate() {
-                    if i < v.len() - 1 {
+                    if i > 0 {
                         write!(f, ", ")?;
                     }
                     write!(f, "{}", item)?;
